@@ -8,7 +8,7 @@ def sh(cmd, cwd=None, env=None):
 head = sh('git -C /repo rev-parse HEAD')[1].strip()
 ROUND = int(os.environ.get('SEED_ROUND', '1'))          # round 2: /tmp/wt2_*, /tmp/seed2_*, kept as <id>-3 and <id>-4
 SFX = '' if ROUND == 1 else str(ROUND)
-OFFSET = 2 * (ROUND - 1)
+OFFSET = int(os.environ.get('SEED_OFFSET', 2 * (ROUND - 1)))
 ids = sys.argv[1:] or ['C%02d' % i for i in range(1, 21)]
 report = []
 for pid in ids:
